@@ -1084,11 +1084,14 @@ def cases_algo(prop, r, group, n, exe):
         cs.append(dict(prop=prop, group=group, kind="c15phi", reqs=reqs, plan=plan, tags=["phi"]))
     elif prop == "C16":
         ops = ["avg_bi", "avg_w", "avg_fl", "avg_fr"]
-        for _ in range(n):
+        for it in range(n):
             cnt = r.choice([1, 2, 3, 5, 8, 13, 21, 34, 50])
             identical = r.random() < 0.15
             radius = 0.0 if identical else r.choice([1e-6, 0.05, 0.3, 0.5])
-            X, pts, tags = l1.make_points(exe, r, group, cnt, radius, dbg, lin_only=("zero", "unit"))
+            so = None
+            if it < 2:         # always: two clouds sharing one orientation, spread in position/velocity/time only
+                so, identical, radius, cnt = True, False, 0.5, r.choice([3, 5, 8])
+            X, pts, tags = l1.make_points(exe, r, group, cnt, radius, dbg, lin_only=("zero", "unit"), same_orientation=so)
             Z, tz = gen.element(r, group, norm="exact", lin_only=["zero", "unit"])
             perm = list(range(cnt))
             r.shuffle(perm)
